@@ -12,6 +12,7 @@ NUMTYPES = [
   ('U3N', 24, 0, 0xffffff, 0, 0xfffffe, 1), ('S3N', 24, 8, 0x800000, 0x800001, 0x7fffff, 1), ('S3L', 24, 0x48, 0, 0x800000, 0x7fffff, 1),
   ('ULG', 32, 0, 0xffffffff, 0, 0xfffffffe, 1), ('U4L', 32, 0x40, 0, 0, 0xffffffff, 1),
   ('SLG', 32, 8, 0x80000000, 0x80000001, 0x7fffffff, 1), ('S4L', 32, 0x48, 0, 0x80000000, 0x7fffffff, 1),
+  ('S1L10', 8, 0x48, 0, 0x80, 0x7f, 10), ('S2L10', 16, 0x48, 0, 0x8000, 0x7fff, 10), ('S2L1000', 16, 0x48, 0, 0x8000, 0x7fff, 1000), ('S2Lm10', 16, 0x48, 0, 0x8000, 0x7fff, -10),
   ('UIN10', 16, 0, 0xffff, 0, 0xfffe, 10), ('SIN-10', 16, 8, 0x8000, 0x8001, 0x7fff, -10), ('ULG100', 32, 0, 0xffffffff, 0, 0xfffffffe, 100),
 ]
 # extra types for the raw-level kernels: (id, bits, flags, repl, min, max, div, firstBit)
@@ -62,7 +63,10 @@ QUICK_NUM = ['UCH', 'SCH', 'D1C', 'UIN', 'SIN', 'FLT', 'S3N', 'ULG', 'SLG', 'U4L
 def numtype_jobs(prop, src, T, extra_defs, prefix, names=None, **kw):
     out = []
     for (tid, bits, fl, repl, mn, mx, div) in NUMTYPES:
-        if not T and tid not in (names or QUICK_NUM):
+        if names is not None:
+            if tid not in names:
+                continue
+        elif not T and tid not in QUICK_NUM:
             continue
         d = {'T_BITS': bits, 'T_FLAGS': fl, 'T_REPL': '%du' % repl, 'T_MIN': '%du' % mn, 'T_MAX': '%du' % mx, 'T_DIV': '(%d)' % div}
         d.update(extra_defs)
@@ -118,6 +122,11 @@ def jobs(prop, tier):
         if prop == 'C10':
             names = ['BI0_1', 'BI0_7', 'BI3_2', 'BI3_5', 'BI7', 'UCH', 'SIR', 'BCD2']
         J += rawtype_jobs(prop, T, names=names, solver=PORTFOLIO, timeout=1500 if T else 280)
+        if prop == 'C06':
+            # value-level inverse through the real text parser (integer types and decimal divisors 10^k / negative divisors)
+            inv = [t[0] for t in NUMTYPES if t[6] in (1, 10, 100, 1000, -10)]
+            qinv = ['UCH', 'SCH', 'SIN', 'S2L', 'ULG', 'SLG', 'FLT', 'S2L10', 'S1L10', 'S2Lm10', 'UIN10', 'SIN-10']
+            J += numtype_jobs('C06', 'C07_parse.cpp', T, {'H_INVERSE': None}, 'inv_', names=[n for n in inv if T or n in qinv], solver=PORTFOLIO, timeout=1500 if T else 280)
         if prop == 'C05':
             J += datetype_jobs(prop, T, solver=PORTFOLIO, timeout=1500 if T else 280)
             ranges = [(0, 4095), (36000, 40095)] if not T else [(k * 4096, k * 4096 + 4095) for k in range(16)]
@@ -140,7 +149,7 @@ def jobs(prop, tier):
         J.append(Job('C14', 'filetransport', 'C14_transport.cpp', defs={}, unwind=34, shape='S', timeout=900 if T else 280,
                      link=['lib/ebus/transport.cpp', 'lib/ebus/symbol.cpp', 'lib/ebus/result.cpp'], models=['string', 'libc', 'sstream_null', 'posix', 'containers', 'libm'], solver=PORTFOLIO,
                      bounds='one read/peek/consume from every buffer state (0..32 bytes, any content) x every ppoll/read outcome'))
-        for l in ((2, 3, 4) if T else (2,)):
+        for l in ((2, 3, 4) if T else (2, 3)):
             J.append(Job('C14', 'stream%d' % l, 'C14_enhanced.cpp', defs={'H_STREAM': None, 'L': l}, unwind=l + 3, unwindset={'cstrlen': 34, 'put_field': 34, 'vs_copy': 34}, shape='R', timeout=3000 if T else 280,
                          bounds='every stream of %d arbitrary bytes from every arbitration state, against a reference decoder written from docs/enhanced_proto.md' % l, **DEV))
         for l in ((2, 3) if T else (2,)):
@@ -154,7 +163,7 @@ def jobs(prop, tier):
                          skip_ctors=['message', 'datatype'], solver=PORTFOLIO, timeout=900 if T else 250,
                          bounds='all level names of length %d over {a,b} x all level lists of length %d over {a,b,;,*}' % (la, lb)))
     if prop == 'C13':
-        combos = [(1, 'a'), (2, 'ab'), (2, 'ba'), (3, 'abc'), (3, 'cab')] if not T else [(1, 'a'), (1, 'c'), (2, 'ab'), (2, 'ba'), (2, 'ac'), (3, 'abc'), (3, 'cab'), (3, 'bca'), (3, 'acb')]
+        combos = [(1, 'a'), (2, 'ab'), (2, 'aa'), (3, 'abc'), (3, 'aba')] if not T else [(1, 'a'), (1, 'c'), (2, 'ab'), (2, 'ba'), (2, 'ac'), (2, 'aa'), (3, 'abc'), (3, 'cab'), (3, 'bca'), (3, 'acb'), (3, 'aba'), (3, 'aab'), (3, 'bab')]
         for (nf, names) in combos:
             J.append(Job('C13', 'hasfield_%s' % names, 'C13_hasfield.cpp', defs={'NF': nf, 'NAMES': '"%s"' % names}, unwind=8, shape='K',
                          link=['lib/ebus/data.cpp', 'lib/ebus/datatype.cpp', 'lib/ebus/symbol.cpp', 'lib/ebus/result.cpp', 'lib/ebus/filereader.cpp', 'lib/ebus/contrib/contrib.cpp', 'lib/ebus/contrib/tem.cpp'],
@@ -165,10 +174,17 @@ def jobs(prop, tier):
         # C20 = conjunction of the built-in safety obligations (bounds, pointer validity, freed objects, shifts, signed overflow,
         # division by zero, uncaught-throw model, unwinding assertions = bounded work) over kernels whose inputs are arbitrary buffers
         DEVN = dict(link=['lib/ebus/device_trans.cpp', 'lib/ebus/symbol.cpp', 'lib/ebus/result.cpp'],
-                    models=['string', 'libc', 'sstream_null', 'posix', 'containers', 'libm'], solver=PORTFOLIO)
-        nf = 3 if T else 2
-        J.append(Job('C20', 'enh_info', 'C14_enhanced.cpp', defs={'H_INFO': None, 'L': nf}, unwind=20, shape='S', timeout=1500 if T else 280,
-                     unwindset={'cstrlen': 34, 'put_field': 34, 'vs_copy': 34}, bounds='arbitrary info-transfer state (length/position 0..18, buffer) x %d arbitrary INFO frames, real notifyInfoRetrieved' % nf, **DEVN))
+                    models=['string', 'libc', 'sstream_null', 'posix', 'containers', 'libm'], solver=PORTFOLIO, devirt_exclude=['_ZThn16_N5ebusd10BaseDevice22notifyTransportMessage'])
+        nf = 2 if T else 1
+        J.append(Job('C20', 'enh_info', 'C14_enhanced.cpp', defs={'H_INFO': None, 'L': 2, 'NF': nf}, unwind=5, shape='S', timeout=1500 if T else 280,
+                     noop_stubs=['_ZN5ebusd14EnhancedDevice19notifyInfoRetrievedEv'],
+                     unwindset={'cstrlen': 34, 'put_field': 34, 'vs_copy': 34, 'vp_main': 18}, bounds='inductive step: arbitrary info-transfer state satisfying the invariant (position 0..17, announced length 0..256, any buffer content) x %d arbitrary INFO frame(s); invariant re-asserted after each frame; the consumer notifyInfoRetrieved is decided separately (enh_info_consume)' % nf, **DEVN))
+        labels = [(2, 0), (5, 0), (8, 0), (9, 1), (8, 2), (3, 2), (2, 3), (2, 4), (2, 5), (2, 6), (1, 7)]
+        for (ln, iid) in (labels if T else [(8, 0), (9, 1), (3, 2), (2, 5)]):
+            J.append(Job('C20', 'enh_info_consume_%d_%d' % (ln, iid), 'C14_enhanced.cpp', defs={'H_INFO2': None, 'L': 2, 'INFO_LEN': ln, 'INFO_ID': iid}, unwind=11, shape='K', timeout=1500 if T else 280,
+                         unwindset={'cstrlen': 34, 'put_field': 34, 'vs_copy': 80, 'vp_main': 18, 'strEv': 80, 'vs_strlen': 80, 'vs_move': 80}, bounds='real notifyInfoRetrieved on the defined response id %d with %d payload bytes, every payload; literal text rendered, numbers as one placeholder digit' % (iid, ln), **dict(DEVN, models=['string_fixed', 'libc', 'sstream_lit', 'posix', 'containers', 'libm'])))
+        J.append(Job('C20', 'enh_info_consume_other', 'C14_enhanced.cpp', defs={'H_INFO2': None, 'L': 2}, unwind=11, shape='K', timeout=1500 if T else 280,
+                     unwindset={'cstrlen': 34, 'put_field': 34, 'vs_copy': 80, 'vp_main': 18, 'strEv': 80, 'vs_strlen': 80, 'vs_move': 80}, bounds='real notifyInfoRetrieved on every 17-byte buffer and announced length 1..256 that is not one of the 11 defined (length, id) responses; literal text rendered, numbers as one placeholder digit', **dict(DEVN, models=['string_fixed', 'libc', 'sstream_lit', 'posix', 'containers', 'libm'])))
         def adopt(src, pick, prefix=''):
             for j in jobs(src, tier):
                 if pick(j.name):
@@ -184,7 +200,7 @@ def jobs(prop, tier):
     if prop == 'C07':
         J += numtype_jobs('C07', 'C07_parse.cpp', T, {}, 'parse_', solver='cadical', timeout=900 if T else 250)
     if prop == 'C12':
-        J += numtype_jobs('C12', 'C07_parse.cpp', T, {'H_ERRNO': None}, 'errno_', names=['UCH', 'SIN', 'FLT', 'ULG'], solver='cadical', timeout=900 if T else 250)
+        J += numtype_jobs('C12', 'C07_parse.cpp', T, {'H_ERRNO': None}, 'errno_', names=(None if T else ['UCH', 'SIN', 'FLT', 'ULG']), solver='cadical', timeout=900 if T else 250)
     return J
 
 COMMON_ASSUME = ['clang-14 -O1 lowering + ll2c translation (validated per run against the native build on witness and random tapes)',
